@@ -3,6 +3,7 @@
 
 mod common;
 mod c06;
+mod c16;
 mod c17;
 
 use mc_core::Tier;
@@ -38,6 +39,7 @@ fn main() {
     // A panic that escapes a check is a machinery error, never a verdict.
     let res = std::panic::catch_unwind(|| match id.as_str() {
         "C06" => c06::run(tier, replay),
+        "C16" => c16::run(tier, replay),
         "C17" => c17::run(tier, replay),
         _ => {
             eprintln!("MACHINERY-ERROR: unknown property id {id}");
